@@ -61,6 +61,13 @@ def main():
         with core.Scratch() as sc:
             ctx.scratch = sc
             rep.note("scratch_build_s", round(sc.build_s, 1))
+            changed = core.source_changed(os.path.join(sc.dir, "pyndl"))
+            rep.note("source_differs_from_baseline_in", changed)
+            if changed and not ctx.thorough and not os.environ.get("PV_NO_ESCALATE"):
+                # the tree is not the one the quick tier was calibrated on: explore it with the thorough generators
+                ctx.thorough = True
+                rep.note("escalated_to_thorough_generators", True)
+                core.log("source differs from the baseline in %s: quick tier runs the thorough generators" % changed)
             mod.run(ctx)
     except Exception:
         tb = traceback.format_exc()
